@@ -1355,33 +1355,42 @@ class DiskRefsContainer(RefsContainer):
         """
         self._check_refname(name)
         self._check_ref_value(new_ref)
-        try:
-            realnames, _ = self.follow(name)
-            realname = realnames[-1]
-        except (KeyError, IndexError, SymrefLoop):
-            realname = name
-        filename = self.refpath(realname)
+        for attempt in range(5):
+            try:
+                realnames, _ = self.follow(name)
+                realname = realnames[-1]
+                resolved = True
+            except (KeyError, IndexError, SymrefLoop):
+                realname = name
+                resolved = False
+            filename = self.refpath(realname)
 
-        packed_refs = self._check_packed_refs_collision(realname, filename)
+            packed_refs = self._check_packed_refs_collision(realname, filename)
 
-        ensure_dir_exists(os.path.dirname(filename))
-        try:
-            return self._set_if_equals_locked(
-                realname,
-                filename,
-                packed_refs,
-                old_ref,
-                new_ref,
-                committer=committer,
-                timestamp=timestamp,
-                timezone=timezone,
-                message=message,
-            )
-        finally:
-            # if nothing was written the directories created above for the
-            # lock file must not be left behind: an empty directory would
-            # block a later ref of that name
-            self._remove_empty_parents(realname)
+            ensure_dir_exists(os.path.dirname(filename))
+            try:
+                result = self._set_if_equals_locked(
+                    realname,
+                    filename,
+                    packed_refs,
+                    old_ref,
+                    new_ref,
+                    committer=committer,
+                    timestamp=timestamp,
+                    timezone=timezone,
+                    message=message,
+                    # the end of a chain is not symbolic: if it is by the
+                    # time it is locked, someone made it so in between
+                    refuse_symref=resolved and attempt < 4,
+                )
+            finally:
+                # if nothing was written the directories created above for the
+                # lock file must not be left behind: an empty directory would
+                # block a later ref of that name
+                self._remove_empty_parents(realname)
+            if result is not None:
+                return result
+        raise AssertionError("unreachable")
 
     def _set_if_equals_locked(
         self,
@@ -1394,8 +1403,15 @@ class DiskRefsContainer(RefsContainer):
         timestamp: int | None = None,
         timezone: int | None = None,
         message: bytes | None = None,
-    ) -> bool:
+        refuse_symref: bool = False,
+    ) -> bool | None:
         with GitFile(filename, "wb") as f:
+            if refuse_symref:
+                current = self.read_loose_ref(realname)
+                if current is not None and current.startswith(SYMREF):
+                    # resolve again rather than overwrite the new symref
+                    f.abort()
+                    return None
             if old_ref is not None:
                 try:
                     # read again while holding the lock to handle race conditions
